@@ -1,3 +1,4 @@
+From CG Require Import Model.RecSrc.
 (* GENERATED on every run by harness/translate/pysrc.py from the Python sources of the tree
    under test — do not edit.  Each definition is the translation of one function's source text;
    Proofs/GenEq*.v prove it equal to the hand-written model for all inputs. *)
@@ -2565,3 +2566,639 @@ Definition g_is_mask_difference {TL : Type} (tl_is_mask : TL -> bool) (self_sour
 (* calgebra/core.py: Complement._is_mask *)
 Definition g_is_mask_complement  : bool :=
   true.
+
+(* calgebra/recurrence.py: RecurringPattern.fetch *)
+Definition g_recur_fetch {R : Type} (fetch_reverse : option Z -> option Z -> R) (fetch_forward : option Z -> option Z -> R) (start : option Z) (end_ : option Z) (reverse : bool) : R :=
+  if reverse then
+    (fetch_reverse start end_)
+  else
+    (fetch_forward start end_).
+
+(* calgebra/recurrence.py: rrule_kwargs_to_rrule_string *)
+Definition g_rrule_text (rrule_kwargs : kwargs) : res text :=
+  let parts := (@nil text) in
+  let freq := (kw_freq rrule_kwargs) in
+  match freq with
+  | Some freq =>
+    if false then
+      (RRaise ValueError)
+    else
+      let parts := (parts ++ [(tok_cat [TKey KFreq] (tok_freq freq))]) in
+      let interval_ := (match (kw_interval rrule_kwargs) with Some v_ => v_ | None => 1 end) in
+      let parts :=
+        if (negb (interval_ =? 1)) then
+          let parts := (parts ++ [(tok_cat [TKey KInterval] (tok_int interval_))]) in
+          parts
+        else
+          parts in
+      let byweekday := (kw_byweekday rrule_kwargs) in
+      match byweekday with
+      | Some byweekday =>
+        let day_strings := (@nil text) in
+        iter_for
+          (fun day_strings wd =>
+            let weekday_str := (wd_text (fst wd)) in
+            match weekday_str with
+            | Some weekday_str =>
+              if ((negb (is_none (snd wd))) && (negb ((ozd (snd wd)) =? 0))) then
+                let day_strings := (day_strings ++ [(tok_cat (tok_int (ozd (snd wd))) weekday_str)]) in
+                (SCont day_strings)
+              else
+                let day_strings := (day_strings ++ [weekday_str]) in
+                (SCont day_strings)
+            | None =>
+              (SRet (RRaise ValueError))
+            end)
+          (fun day_strings =>
+            let parts :=
+              if (nonempty day_strings) then
+                let parts := (parts ++ [(tok_cat [TKey KByDay] (tok_join [TComma] day_strings))]) in
+                parts
+              else
+                parts in
+            let val := (kw_bymonth rrule_kwargs) in
+            let parts :=
+              match val with
+              | Some val =>
+                let parts := (parts ++ [(tok_cat [TKey KByMonth] (tok_join [TComma] (map tok_int val)))]) in
+                parts
+              | None =>
+                parts
+              end in
+            let val := (kw_bymonthday rrule_kwargs) in
+            let parts :=
+              match val with
+              | Some val =>
+                let parts := (parts ++ [(tok_cat [TKey KByMonthDay] (tok_join [TComma] (map tok_int val)))]) in
+                parts
+              | None =>
+                parts
+              end in
+            let val := (kw_byweekno rrule_kwargs) in
+            let parts :=
+              match val with
+              | Some val =>
+                let parts := (parts ++ [(tok_cat [TKey KByWeekNo] (tok_join [TComma] (map tok_int val)))]) in
+                parts
+              | None =>
+                parts
+              end in
+            let val := (kw_byyearday rrule_kwargs) in
+            let parts :=
+              match val with
+              | Some val =>
+                let parts := (parts ++ [(tok_cat [TKey KByYearDay] (tok_join [TComma] (map tok_int val)))]) in
+                parts
+              | None =>
+                parts
+              end in
+            let val := (kw_bysetpos rrule_kwargs) in
+            let parts :=
+              match val with
+              | Some val =>
+                let parts := (parts ++ [(tok_cat [TKey KBySetPos] (tok_join [TComma] (map tok_int val)))]) in
+                parts
+              | None =>
+                parts
+              end in
+            let val := (kw_byhour rrule_kwargs) in
+            let parts :=
+              match val with
+              | Some val =>
+                let parts := (parts ++ [(tok_cat [TKey KByHour] (tok_join [TComma] (map tok_int val)))]) in
+                parts
+              | None =>
+                parts
+              end in
+            let val := (kw_byminute rrule_kwargs) in
+            let parts :=
+              match val with
+              | Some val =>
+                let parts := (parts ++ [(tok_cat [TKey KByMinute] (tok_join [TComma] (map tok_int val)))]) in
+                parts
+              | None =>
+                parts
+              end in
+            let val := (kw_bysecond rrule_kwargs) in
+            let parts :=
+              match val with
+              | Some val =>
+                let parts := (parts ++ [(tok_cat [TKey KBySecond] (tok_join [TComma] (map tok_int val)))]) in
+                parts
+              | None =>
+                parts
+              end in
+            let wkst := (kw_wkst rrule_kwargs) in
+            let parts :=
+              match wkst with
+              | Some wkst =>
+                match wkst with
+                | WkObj wkst_w =>
+                  let s := (wd_text wkst_w) in
+                  if (otext_true s) then
+                    let parts := (parts ++ [(tok_cat [TKey KWkst] (match s with Some v_ => v_ | None => (@nil token) end))]) in
+                    parts
+                  else
+                    parts
+                | WkInt wkst_z =>
+                  if ((0 <=? wkst_z) && (wkst_z <? 7)) then
+                    let parts := (parts ++ [(tok_cat [TKey KWkst] (tok_wd wkst_z))]) in
+                    parts
+                  else
+                    parts
+                end
+              | None =>
+                parts
+              end in
+            (RDone (tok_join [TSemi] parts)))
+          day_strings byweekday
+      | None =>
+        let val := (kw_bymonth rrule_kwargs) in
+        let parts :=
+          match val with
+          | Some val =>
+            let parts := (parts ++ [(tok_cat [TKey KByMonth] (tok_join [TComma] (map tok_int val)))]) in
+            parts
+          | None =>
+            parts
+          end in
+        let val := (kw_bymonthday rrule_kwargs) in
+        let parts :=
+          match val with
+          | Some val =>
+            let parts := (parts ++ [(tok_cat [TKey KByMonthDay] (tok_join [TComma] (map tok_int val)))]) in
+            parts
+          | None =>
+            parts
+          end in
+        let val := (kw_byweekno rrule_kwargs) in
+        let parts :=
+          match val with
+          | Some val =>
+            let parts := (parts ++ [(tok_cat [TKey KByWeekNo] (tok_join [TComma] (map tok_int val)))]) in
+            parts
+          | None =>
+            parts
+          end in
+        let val := (kw_byyearday rrule_kwargs) in
+        let parts :=
+          match val with
+          | Some val =>
+            let parts := (parts ++ [(tok_cat [TKey KByYearDay] (tok_join [TComma] (map tok_int val)))]) in
+            parts
+          | None =>
+            parts
+          end in
+        let val := (kw_bysetpos rrule_kwargs) in
+        let parts :=
+          match val with
+          | Some val =>
+            let parts := (parts ++ [(tok_cat [TKey KBySetPos] (tok_join [TComma] (map tok_int val)))]) in
+            parts
+          | None =>
+            parts
+          end in
+        let val := (kw_byhour rrule_kwargs) in
+        let parts :=
+          match val with
+          | Some val =>
+            let parts := (parts ++ [(tok_cat [TKey KByHour] (tok_join [TComma] (map tok_int val)))]) in
+            parts
+          | None =>
+            parts
+          end in
+        let val := (kw_byminute rrule_kwargs) in
+        let parts :=
+          match val with
+          | Some val =>
+            let parts := (parts ++ [(tok_cat [TKey KByMinute] (tok_join [TComma] (map tok_int val)))]) in
+            parts
+          | None =>
+            parts
+          end in
+        let val := (kw_bysecond rrule_kwargs) in
+        let parts :=
+          match val with
+          | Some val =>
+            let parts := (parts ++ [(tok_cat [TKey KBySecond] (tok_join [TComma] (map tok_int val)))]) in
+            parts
+          | None =>
+            parts
+          end in
+        let wkst := (kw_wkst rrule_kwargs) in
+        match wkst with
+        | Some wkst =>
+          match wkst with
+          | WkObj wkst_w =>
+            let s := (wd_text wkst_w) in
+            let parts :=
+              if (otext_true s) then
+                let parts := (parts ++ [(tok_cat [TKey KWkst] (match s with Some v_ => v_ | None => (@nil token) end))]) in
+                parts
+              else
+                parts in
+            (RDone (tok_join [TSemi] parts))
+          | WkInt wkst_z =>
+            let parts :=
+              if ((0 <=? wkst_z) && (wkst_z <? 7)) then
+                let parts := (parts ++ [(tok_cat [TKey KWkst] (tok_wd wkst_z))]) in
+                parts
+              else
+                parts in
+            (RDone (tok_join [TSemi] parts))
+          end
+        | None =>
+          (RDone (tok_join [TSemi] parts))
+        end
+      end
+  | None =>
+    (RRaise ValueError)
+  end.
+
+(* calgebra/recurrence.py: RecurringPattern.to_rrule_string *)
+Definition g_to_rrule_string (self_rrule_kwargs : kwargs) : res text :=
+  res_bind (g_rrule_text self_rrule_kwargs) (fun r1_ =>
+  (RDone r1_)).
+
+(* calgebra/recurrence.py: _to_int_list *)
+Definition g_to_int_list (val : option intarg) : option (list Z) :=
+  match val with
+  | Some val =>
+    match val with
+    | IOne val_z =>
+      let val_list := [val_z] in
+      (Some (map (fun x => x) val_list))
+    | IList val_l =>
+      let val_list := val_l in
+      (Some (map (fun x => x) val_list))
+    end
+  | None =>
+    None
+  end.
+
+(* calgebra/recurrence.py: RecurringPattern.__init__ *)
+Definition g_rp_head {DT : Type} {ZONE : Type} {TZ : Type} {IC : Type} {MD : Type} (zoneinfo : TZ -> ZONE) (zone_utc : ZONE) (dt_tzinfo : DT -> ZONE) (freq : Recur.freq) (interval_ : Z) (duration : Z) (interval_class : IC) (metadata : MD) (exdates : option (list Z)) (tz : option TZ) (start : (start_arg DT)) : res ((Recur.freq * Z * Z * list Z * ZONE)) :=
+  let self_freq := freq in
+  let self_interval := interval_ in
+  let self_duration_seconds := duration in
+  let self_interval_class := interval_class in
+  let self_metadata := metadata in
+  let self_exdates := (if (match exdates with Some v_ => nonempty v_ | None => false end) then (fs_of_list (match exdates with Some v_ => v_ | None => [] end)) else (@nil Z)) in
+  match tz with
+  | Some tz =>
+    let self_zone := (zoneinfo tz) in
+    (RDone (self_freq, self_interval, self_duration_seconds, self_exdates, self_zone))
+  | None =>
+    match start with
+    | StInt start_z =>
+      let self_zone := zone_utc in
+      (RDone (self_freq, self_interval, self_duration_seconds, self_exdates, self_zone))
+    | StAware start_dt =>
+      let self_zone := (dt_tzinfo start_dt) in
+      (RDone (self_freq, self_interval, self_duration_seconds, self_exdates, self_zone))
+    | StNaive start_dt =>
+      let self_zone := zone_utc in
+      (RDone (self_freq, self_interval, self_duration_seconds, self_exdates, self_zone))
+    end
+  end.
+
+(* calgebra/recurrence.py: RecurringPattern.__init__ *)
+Definition g_rp_start {DT : Type} {ZONE : Type} (dt_with_zone : DT -> ZONE -> DT) (dt_timestamp : DT -> Z) (dt_fromtimestamp : Z -> ZONE -> DT) (dt_hour : DT -> Z) (dt_minute : DT -> Z) (dt_second : DT -> Z) (start : (start_arg DT)) (self_zone : ZONE) : res ((option DT * option Z * Z)) :=
+  let anchor_dt := None in
+  match start with
+  | StInt start_z =>
+    if (start_z >? 86400) then
+      let anchor_dt := (dt_fromtimestamp start_z self_zone) in
+      let self_anchor_timestamp := (Some start_z) in
+      let self_start_seconds := ((((dt_hour anchor_dt) * 3600) + ((dt_minute anchor_dt) * 60)) + (dt_second anchor_dt)) in
+      (RDone ((Some anchor_dt), self_anchor_timestamp, self_start_seconds))
+    else
+      if (negb ((0 <=? start_z) && (start_z <? 86400))) then
+        (RRaise ValueError)
+      else
+        let self_anchor_timestamp := None in
+        let self_start_seconds := start_z in
+        (RDone (anchor_dt, self_anchor_timestamp, self_start_seconds))
+  | StAware start_dt =>
+    let anchor_dt := start_dt in
+    let self_anchor_timestamp := (Some (dt_timestamp anchor_dt)) in
+    let self_start_seconds := ((((dt_hour anchor_dt) * 3600) + ((dt_minute anchor_dt) * 60)) + (dt_second anchor_dt)) in
+    (RDone ((Some anchor_dt), self_anchor_timestamp, self_start_seconds))
+  | StNaive start_dt =>
+    let anchor_dt := (dt_with_zone start_dt self_zone) in
+    let self_anchor_timestamp := (Some (dt_timestamp anchor_dt)) in
+    let self_start_seconds := ((((dt_hour anchor_dt) * 3600) + ((dt_minute anchor_dt) * 60)) + (dt_second anchor_dt)) in
+    (RDone ((Some anchor_dt), self_anchor_timestamp, self_start_seconds))
+  end.
+
+(* calgebra/recurrence.py: RecurringPattern.__init__ *)
+Definition g_rp_check {DT : Type} {DS : Type} (dt_weekday : DT -> Z) (ds_lower : DS -> DS) (daymap_has : DS -> bool) (daymap_get : DS -> Z) (day : option ((dayarg DS))) (anchor_dt : option DT) : res bool :=
+  match day with
+  | Some day =>
+    match anchor_dt with
+    | Some anchor_dt =>
+      match day with
+      | DayStr day_s =>
+        let days_list := [day_s] in
+        let anchor_weekday := (dt_weekday anchor_dt) in
+        let valid_weekdays := (@nil Z) in
+        iter_for
+          (fun valid_weekdays d =>
+            let d_lower := (ds_lower d) in
+            if (daymap_has d_lower) then
+              let valid_weekdays := (valid_weekdays ++ [(daymap_get d_lower)]) in
+              (SCont valid_weekdays)
+            else
+              (SCont valid_weekdays))
+          (fun valid_weekdays =>
+            if ((nonempty valid_weekdays) && (negb (zmem anchor_weekday valid_weekdays))) then
+              (RRaise ValueError)
+            else
+              (RDone true))
+          valid_weekdays days_list
+      | DayList day_l =>
+        let days_list := day_l in
+        let anchor_weekday := (dt_weekday anchor_dt) in
+        let valid_weekdays := (@nil Z) in
+        iter_for
+          (fun valid_weekdays d =>
+            let d_lower := (ds_lower d) in
+            if (daymap_has d_lower) then
+              let valid_weekdays := (valid_weekdays ++ [(daymap_get d_lower)]) in
+              (SCont valid_weekdays)
+            else
+              (SCont valid_weekdays))
+          (fun valid_weekdays =>
+            if ((nonempty valid_weekdays) && (negb (zmem anchor_weekday valid_weekdays))) then
+              (RRaise ValueError)
+            else
+              (RDone true))
+          valid_weekdays days_list
+      end
+    | None =>
+      (RDone true)
+    end
+  | None =>
+    (RDone true)
+  end.
+
+(* calgebra/recurrence.py: RecurringPattern.__init__ *)
+Definition g_rp_store {DS : Type} (day : option ((dayarg DS))) (week : option Z) (day_of_month : option intarg) (month : option intarg) (bysetpos : option intarg) (byweekno : option intarg) (byyearday : option intarg) (byhour : option intarg) (byminute : option intarg) (bysecond : option intarg) (wkst : option ((wkarg DS))) : res ((option (dayarg DS) * option Z * option intarg * option intarg * option intarg * option intarg * option intarg * option intarg * option intarg * option intarg * option (wkarg DS))) :=
+  let self_day := day in
+  let self_week := week in
+  let self_day_of_month := day_of_month in
+  let self_month := month in
+  let self_bysetpos := bysetpos in
+  let self_byweekno := byweekno in
+  let self_byyearday := byyearday in
+  let self_byhour := byhour in
+  let self_byminute := byminute in
+  let self_bysecond := bysecond in
+  let self_wkst := wkst in
+  (RDone (self_day, self_week, self_day_of_month, self_month, self_bysetpos, self_byweekno, self_byyearday, self_byhour, self_byminute, self_bysecond, self_wkst)).
+
+(* calgebra/recurrence.py: RecurringPattern.__init__ *)
+Definition g_rp_days {DS : Type} (ds_upper : DS -> DS) (ds_lower : DS -> DS) (ds_len : DS -> Z) (ds_suffix : DS -> Z -> DS) (ds_drop_suffix : DS -> Z -> DS) (ds_int : DS -> option Z) (daymap_has : DS -> bool) (daymap_get : DS -> Z) (freq : Recur.freq) (interval_ : Z) (day : option ((dayarg DS))) (week : option Z) : res kwargs :=
+  let rrule_kwargs := (mkKW (Some freq) (Some interval_) None None None None None None None None None None) in
+  match day with
+  | Some day =>
+    match day with
+    | DayStr day_s =>
+      let days := [day_s] in
+      let weekdays := (@nil ((Z * option Z))) in
+      iter_for
+        (fun weekdays d =>
+          let s := (ds_upper d) in
+          if (daymap_has (ds_lower d)) then
+            let wd := ((daymap_get (ds_lower d)), (@None Z)) in
+            match week with
+            | Some week =>
+              match (wd_call wd week) with
+              | Some v_ =>
+                let wd := v_ in
+                let weekdays := (weekdays ++ [wd]) in
+                (SCont weekdays)
+              | None =>
+                (SRet (RRaise ValueError))
+              end
+            | None =>
+              let weekdays := (weekdays ++ [wd]) in
+              (SCont weekdays)
+            end
+          else
+            if ((ds_len s) >? 2) then
+              let code := (ds_suffix s 2) in
+              let prefix := (ds_drop_suffix s 2) in
+              if (daymap_has (ds_lower code)) then
+                let wd_const := ((daymap_get (ds_lower code)), (@None Z)) in
+                match (ds_int prefix) with
+                | Some v_ =>
+                  let n := v_ in
+                  match (wd_call wd_const n) with
+                  | Some v_ =>
+                    let weekdays := (weekdays ++ [v_]) in
+                    (SCont weekdays)
+                  | None =>
+                  (SRet (RRaise ValueError))
+                  end
+                | None =>
+                  (SRet (RRaise ValueError))
+                end
+              else
+                (SRet (RRaise ValueError))
+            else
+              (SRet (RRaise ValueError)))
+        (fun weekdays =>
+          let rrule_kwargs := (set_byweekday rrule_kwargs (Some weekdays)) in
+          (RDone rrule_kwargs))
+        weekdays days
+    | DayList day_l =>
+      let days := day_l in
+      let weekdays := (@nil ((Z * option Z))) in
+      iter_for
+        (fun weekdays d =>
+          let s := (ds_upper d) in
+          if (daymap_has (ds_lower d)) then
+            let wd := ((daymap_get (ds_lower d)), (@None Z)) in
+            match week with
+            | Some week =>
+              match (wd_call wd week) with
+              | Some v_ =>
+                let wd := v_ in
+                let weekdays := (weekdays ++ [wd]) in
+                (SCont weekdays)
+              | None =>
+                (SRet (RRaise ValueError))
+              end
+            | None =>
+              let weekdays := (weekdays ++ [wd]) in
+              (SCont weekdays)
+            end
+          else
+            if ((ds_len s) >? 2) then
+              let code := (ds_suffix s 2) in
+              let prefix := (ds_drop_suffix s 2) in
+              if (daymap_has (ds_lower code)) then
+                let wd_const := ((daymap_get (ds_lower code)), (@None Z)) in
+                match (ds_int prefix) with
+                | Some v_ =>
+                  let n := v_ in
+                  match (wd_call wd_const n) with
+                  | Some v_ =>
+                    let weekdays := (weekdays ++ [v_]) in
+                    (SCont weekdays)
+                  | None =>
+                  (SRet (RRaise ValueError))
+                  end
+                | None =>
+                  (SRet (RRaise ValueError))
+                end
+              else
+                (SRet (RRaise ValueError))
+            else
+              (SRet (RRaise ValueError)))
+        (fun weekdays =>
+          let rrule_kwargs := (set_byweekday rrule_kwargs (Some weekdays)) in
+          (RDone rrule_kwargs))
+        weekdays days
+    end
+  | None =>
+    (RDone rrule_kwargs)
+  end.
+
+(* calgebra/recurrence.py: RecurringPattern.__init__ *)
+Definition g_rp_lists {DS : Type} (ds_lower : DS -> DS) (daymap_has : DS -> bool) (daymap_get : DS -> Z) (rrule_kwargs : kwargs) (day_of_month : option intarg) (month : option intarg) (bysetpos : option intarg) (byweekno : option intarg) (byyearday : option intarg) (byhour : option intarg) (byminute : option intarg) (bysecond : option intarg) (wkst : option ((wkarg DS))) : res kwargs :=
+  let rrule_kwargs :=
+    match day_of_month with
+    | Some day_of_month =>
+      let rrule_kwargs := (set_bymonthday rrule_kwargs (g_to_int_list (Some day_of_month))) in
+      rrule_kwargs
+    | None =>
+      rrule_kwargs
+    end in
+  let rrule_kwargs :=
+    match month with
+    | Some month =>
+      let rrule_kwargs := (set_bymonth rrule_kwargs (g_to_int_list (Some month))) in
+      rrule_kwargs
+    | None =>
+      rrule_kwargs
+    end in
+  let rrule_kwargs :=
+    match bysetpos with
+    | Some bysetpos =>
+      let rrule_kwargs := (set_bysetpos rrule_kwargs (g_to_int_list (Some bysetpos))) in
+      rrule_kwargs
+    | None =>
+      rrule_kwargs
+    end in
+  let rrule_kwargs :=
+    match byweekno with
+    | Some byweekno =>
+      let rrule_kwargs := (set_byweekno rrule_kwargs (g_to_int_list (Some byweekno))) in
+      rrule_kwargs
+    | None =>
+      rrule_kwargs
+    end in
+  let rrule_kwargs :=
+    match byyearday with
+    | Some byyearday =>
+      let rrule_kwargs := (set_byyearday rrule_kwargs (g_to_int_list (Some byyearday))) in
+      rrule_kwargs
+    | None =>
+      rrule_kwargs
+    end in
+  let rrule_kwargs :=
+    match byhour with
+    | Some byhour =>
+      let rrule_kwargs := (set_byhour rrule_kwargs (g_to_int_list (Some byhour))) in
+      rrule_kwargs
+    | None =>
+      rrule_kwargs
+    end in
+  let rrule_kwargs :=
+    match byminute with
+    | Some byminute =>
+      let rrule_kwargs := (set_byminute rrule_kwargs (g_to_int_list (Some byminute))) in
+      rrule_kwargs
+    | None =>
+      rrule_kwargs
+    end in
+  let rrule_kwargs :=
+    match bysecond with
+    | Some bysecond =>
+      let rrule_kwargs := (set_bysecond rrule_kwargs (g_to_int_list (Some bysecond))) in
+      rrule_kwargs
+    | None =>
+      rrule_kwargs
+    end in
+  let rrule_kwargs :=
+    match wkst with
+    | Some wkst =>
+      match wkst with
+      | WaObj wkst_w =>
+        let rrule_kwargs := (set_wkst rrule_kwargs (Some (WkObj wkst_w))) in
+        rrule_kwargs
+      | WaStr wkst_s =>
+        if (daymap_has (ds_lower wkst_s)) then
+          let rrule_kwargs := (set_wkst rrule_kwargs (Some (WkObj (daymap_get (ds_lower wkst_s))))) in
+          rrule_kwargs
+        else
+          rrule_kwargs
+      | WaInt wkst_z =>
+        if ((0 <=? wkst_z) && (wkst_z <? 7)) then
+          let rrule_kwargs := (set_wkst rrule_kwargs (Some (WkInt wkst_z))) in
+          rrule_kwargs
+        else
+          rrule_kwargs
+      end
+    | None =>
+      rrule_kwargs
+    end in
+  let self_rrule_kwargs := rrule_kwargs in
+  (RDone self_rrule_kwargs).
+
+(* calgebra/recurrence.py: RecurringPattern.__init__ *)
+Definition g_rp_epoch {DT : Type} {ZONE : Type} (dt_make : Z -> Z -> Z -> ZONE -> DT) (self_zone : ZONE) : res DT :=
+  let self__epoch := (dt_make 1970 1 1 self_zone) in
+  (RDone self__epoch).
+
+(* calgebra/recurrence.py: RecurringPattern.__init__ *)
+Definition g_rp_init {DT : Type} {ZONE : Type} {TZ : Type} {IC : Type} {MD : Type} {DS : Type} (zoneinfo : TZ -> ZONE) (zone_utc : ZONE) (dt_tzinfo : DT -> ZONE) (dt_with_zone : DT -> ZONE -> DT) (dt_timestamp : DT -> Z) (dt_fromtimestamp : Z -> ZONE -> DT) (dt_hour : DT -> Z) (dt_minute : DT -> Z) (dt_second : DT -> Z) (dt_weekday : DT -> Z) (ds_lower : DS -> DS) (daymap_has : DS -> bool) (daymap_get : DS -> Z) (ds_upper : DS -> DS) (ds_len : DS -> Z) (ds_suffix : DS -> Z -> DS) (ds_drop_suffix : DS -> Z -> DS) (ds_int : DS -> option Z) (dt_make : Z -> Z -> Z -> ZONE -> DT) (freq : Recur.freq) (interval_ : Z) (day : option ((dayarg DS))) (week : option Z) (day_of_month : option intarg) (month : option intarg) (start : (start_arg DT)) (duration : Z) (tz : option TZ) (interval_class : IC) (exdates : option (list Z)) (bysetpos : option intarg) (byweekno : option intarg) (byyearday : option intarg) (byhour : option intarg) (byminute : option intarg) (bysecond : option intarg) (wkst : option ((wkarg DS))) (metadata : MD) : res ((Recur.freq * Z * Z * list Z * ZONE * option Z * Z * option (dayarg DS) * option Z * option intarg * option intarg * option intarg * option intarg * option intarg * option intarg * option intarg * option intarg * option (wkarg DS) * kwargs * DT)) :=
+  res_bind (g_rp_head zoneinfo zone_utc dt_tzinfo freq interval_ duration interval_class metadata exdates tz start) (fun r1_ =>
+  let part0_ := r1_ in
+  let self_freq := (fst (fst (fst (fst part0_)))) in
+  let self_interval := (snd (fst (fst (fst part0_)))) in
+  let self_duration_seconds := (snd (fst (fst part0_))) in
+  let self_exdates := (snd (fst part0_)) in
+  let self_zone := (snd part0_) in
+  res_bind (g_rp_start dt_with_zone dt_timestamp dt_fromtimestamp dt_hour dt_minute dt_second start self_zone) (fun r2_ =>
+  let part1_ := r2_ in
+  let anchor_dt := (fst (fst part1_)) in
+  let self_anchor_timestamp := (snd (fst part1_)) in
+  let self_start_seconds := (snd part1_) in
+  res_bind (g_rp_check dt_weekday ds_lower daymap_has daymap_get day anchor_dt) (fun r3_ =>
+  let part2_ := r3_ in
+  res_bind (g_rp_store day week day_of_month month bysetpos byweekno byyearday byhour byminute bysecond wkst) (fun r4_ =>
+  let part3_ := r4_ in
+  let self_day := (fst (fst (fst (fst (fst (fst (fst (fst (fst (fst part3_)))))))))) in
+  let self_week := (snd (fst (fst (fst (fst (fst (fst (fst (fst (fst part3_)))))))))) in
+  let self_day_of_month := (snd (fst (fst (fst (fst (fst (fst (fst (fst part3_))))))))) in
+  let self_month := (snd (fst (fst (fst (fst (fst (fst (fst part3_)))))))) in
+  let self_bysetpos := (snd (fst (fst (fst (fst (fst (fst part3_))))))) in
+  let self_byweekno := (snd (fst (fst (fst (fst (fst part3_)))))) in
+  let self_byyearday := (snd (fst (fst (fst (fst part3_))))) in
+  let self_byhour := (snd (fst (fst (fst part3_)))) in
+  let self_byminute := (snd (fst (fst part3_))) in
+  let self_bysecond := (snd (fst part3_)) in
+  let self_wkst := (snd part3_) in
+  res_bind (g_rp_days ds_upper ds_lower ds_len ds_suffix ds_drop_suffix ds_int daymap_has daymap_get freq interval_ day week) (fun r5_ =>
+  let part4_ := r5_ in
+  let rrule_kwargs := part4_ in
+  res_bind (g_rp_lists ds_lower daymap_has daymap_get rrule_kwargs day_of_month month bysetpos byweekno byyearday byhour byminute bysecond wkst) (fun r6_ =>
+  let part5_ := r6_ in
+  let self_rrule_kwargs := part5_ in
+  res_bind (g_rp_epoch dt_make self_zone) (fun r7_ =>
+  let part6_ := r7_ in
+  let self__epoch := part6_ in
+  (RDone (self_freq, self_interval, self_duration_seconds, self_exdates, self_zone, self_anchor_timestamp, self_start_seconds, self_day, self_week, self_day_of_month, self_month, self_bysetpos, self_byweekno, self_byyearday, self_byhour, self_byminute, self_bysecond, self_wkst, self_rrule_kwargs, self__epoch))))))))).
